@@ -5,7 +5,7 @@
       rc, img: [independent reader's listing of the image: path, ino, type, size, mode, uid, gid, nlink, mtime, digest, target,
                 rdev, xattrs [[name, digest]], mapped [[lo, hi)) byte ranges that have a block behind them],
       abs_failed: [conjuncts of Ext4Abs!Consistent that TLC found false], fsck_rc, repro (1 identical / 0 different / -1 not run),
-      rdump_run, rdump_rc, rdump: [host listing of the debugfs rdump output], dump: [{id, how, size, digest}] (dump -p / cat)}
+      rdump_run, rdump_rc, rdump: [host listing of the debugfs rdump output], dump: [{id, how, size, digest, perm, uid, gid}] (dump -p / cat)}
    The verdict of every case is computed here: the model image M = PopModel(tree, lstat data) must equal the observed image on
    every attribute the property lists, and RdumpModel(M) must equal the observed extraction.  Lines are independent; a failing
    line prints <<"BADLINE", l, clauses>> and the scan goes on; a line whose concretisation does not match the abstract tree
@@ -95,7 +95,8 @@ RdClauses(r) ==
      RdPerms   |-> \A i \in G : RM[i].type \in {"reg", "dir"} => rat[i].perm = RM[i].perm,
      RdOwners  |-> \A i \in G : rat[i].uid = RM[i].uid /\ rat[i].gid = RM[i].gid,
      RdRc      |-> r.rdump_rc = 0,
-     DumpCat   |-> \A d \in Rng(r.dump) : d.size = RM[d.id].size /\ (RM[d.id].size = M[d.id].size => d.digest = r.conc[d.id].digest) ]
+     DumpCat   |-> \A d \in Rng(r.dump) : d.size = RM[d.id].size /\ (RM[d.id].size = M[d.id].size => d.digest = r.conc[d.id].digest),
+     DumpPerms |-> \A d \in Rng(r.dump) : d.how = "dump" => d.perm = RM[d.id].perm /\ d.uid = RM[d.id].uid /\ d.gid = RM[d.id].gid ]   \* dump -p
 
 Failed(r) == LET cl == Clauses(r)
                  rd == IF r.rdump_run = 1 THEN RdClauses(r) ELSE [RdNames |-> TRUE]
